@@ -4,9 +4,15 @@ package c11
 import (
 	"bytes"
 	"context"
+	"crypto/ecdsa"
+	"crypto/elliptic"
+	crand "crypto/rand"
+	"crypto/x509"
+	"crypto/x509/pkix"
 	"embed"
 	"fmt"
 	"io"
+	"math/big"
 	"os"
 	"path/filepath"
 	"strings"
@@ -14,7 +20,9 @@ import (
 
 	mail "github.com/wneessen/go-mail"
 	"verif/harness/bytex"
+	"verif/harness/cmsx"
 	"verif/harness/hx"
+	"verif/harness/mimeread"
 	"verif/harness/smtpx"
 )
 
@@ -24,10 +32,59 @@ func init() { hx.Register("C11", Run) }
 var embFS embed.FS
 
 type shape struct {
-	name  string
-	spec  bytex.MsgSpec
-	extra func(m *mail.Msg, dir string) error // file sources outside the spec (fs, read-seeker, templates): oracle-only shapes
-	model bool                                // the spec describes the whole message (model-comparable)
+	name   string
+	spec   bytex.MsgSpec
+	extra  func(m *mail.Msg, dir string) error // file sources outside the spec (fs, read-seeker, templates): oracle-only shapes
+	model  bool                                // the spec describes the whole message (model-comparable)
+	signed bool                                // S/MIME-signed: renders are compared by their signed entity
+}
+
+var (
+	signKey  *ecdsa.PrivateKey
+	signCert *x509.Certificate
+)
+
+func signer() (*ecdsa.PrivateKey, *x509.Certificate, error) {
+	if signKey != nil {
+		return signKey, signCert, nil
+	}
+	k, err := ecdsa.GenerateKey(elliptic.P256(), crand.Reader)
+	if err != nil {
+		return nil, nil, err
+	}
+	now := time.Now()
+	t := &x509.Certificate{SerialNumber: big.NewInt(7), Subject: pkix.Name{CommonName: "c11 signer"}, NotBefore: now.Add(-time.Hour),
+		NotAfter: now.Add(240 * time.Hour), KeyUsage: x509.KeyUsageDigitalSignature, EmailAddresses: []string{"from@x.test"}}
+	der, err := x509.CreateCertificate(crand.Reader, t, t, &k.PublicKey, k)
+	if err != nil {
+		return nil, nil, err
+	}
+	c, err := x509.ParseCertificate(der)
+	if err != nil {
+		return nil, nil, err
+	}
+	signKey, signCert = k, c
+	return k, c, nil
+}
+
+// the signed entity of a multipart/signed rendering, after checking that the detached signature in the
+// same rendering is a signature over exactly that entity
+func signedEntity(out []byte) ([]byte, error) {
+	ent, err := mimeread.Read(out)
+	if err != nil {
+		return nil, err
+	}
+	if ent.MediaType != "multipart/signed" {
+		return nil, fmt.Errorf("top level is %s, not multipart/signed", ent.MediaType)
+	}
+	raw, err := mimeread.SplitMultipart(ent.Raw, ent.Boundary)
+	if err != nil || len(raw) != 2 || len(ent.Kids) != 2 {
+		return nil, fmt.Errorf("multipart/signed with %d parts (%v)", len(raw), err)
+	}
+	if _, err := cmsx.Verify(ent.Kids[1].Body, raw[0]); err != nil {
+		return nil, fmt.Errorf("the signature is not over the entity in the message: %v", err)
+	}
+	return raw[0], nil
 }
 
 func prod(s string) bytex.Producer { return bytex.Producer{Chunks: [][]byte{[]byte(s)}} }
@@ -43,7 +100,9 @@ func shapes() []shape {
 				{K: "Keywords", V: []string{"alpha", "", "omega"}}, {K: "X-Multi", V: []string{"", "na\xc3\xafve", "", "last"}},
 				{K: "X-Empty-Last", V: []string{"one", "two", ""}}}}
 	}
-	P := func(ct, enc, content string) bytex.PartSpec { return bytex.PartSpec{CType: ct, Enc: enc, Prod: prod(content)} }
+	P := func(ct, enc, content string) bytex.PartSpec {
+		return bytex.PartSpec{CType: ct, Enc: enc, Prod: prod(content)}
+	}
 	F := func(name, enc, desc, content string) bytex.FileSpec {
 		return bytex.FileSpec{Name: name, Enc: enc, Desc: desc, Prod: prod(content)}
 	}
@@ -146,6 +205,39 @@ func shapes() []shape {
 		}
 		m.AttachReadSeeker("big-osfile.bin", fh)
 		return nil
+	}})
+	// S/MIME-signed messages: every render carries the same signed entity, and the signature in each render is
+	// one over that entity; with a producer that can be switched to fail (the failure then happens inside the
+	// pre-render of the signing step)
+	sign := func(m *mail.Msg, dir string) error {
+		k, c, err := signer()
+		if err != nil {
+			return err
+		}
+		return m.SignWithKeypair(k, c, nil)
+	}
+	out = append(out, shape{name: "signed", signed: true, spec: func() bytex.MsgSpec {
+		s := base()
+		s.Parts = []bytex.PartSpec{P("text/plain", "", txt), P("text/html", "base64", html)}
+		s.Attach = []bytex.FileSpec{F("a.bin", "", "desc", bin)}
+		s.Embeds = []bytex.FileSpec{F("logo.png", "", "", bin)}
+		return s
+	}(), extra: sign})
+	out = append(out, shape{name: "signed-flaky", signed: true, spec: func() bytex.MsgSpec {
+		s := base()
+		s.Parts = []bytex.PartSpec{P("text/plain", "", txt)}
+		s.Attach = []bytex.FileSpec{F("a.bin", "", "", bin)}
+		return s
+	}(), extra: func(m *mail.Msg, dir string) error {
+		att := m.GetAttachments()
+		orig := att[0].Writer
+		att[0].Writer = func(w io.Writer) (int64, error) {
+			if flakyFail {
+				return 0, fmt.Errorf("verif: source temporarily unavailable")
+			}
+			return orig(w)
+		}
+		return sign(m, dir)
 	}})
 	return out
 }
@@ -335,6 +427,19 @@ func runCase(r *hx.Run, c hx.Case, sh []shape) {
 				r.Fail(c.ID, "render-error-"+s.name, fmt.Sprintf("op %d (%s): %v", i, op, err))
 				return
 			}
+			if s.signed {
+				e, serr := signedEntity(b)
+				if serr != nil {
+					r.Fail(c.ID, "signed-"+s.name, fmt.Sprintf("op %d (%s): %v", i, op, serr))
+					return
+				}
+				if !have {
+					first, have = e, true
+				} else if !bytes.Equal(e, first) {
+					r.Fail(c.ID, class, fmt.Sprintf("op %d (%s): signed entity differs from the first render: %s", i, op, firstDiff(first, e)))
+				}
+				continue
+			}
 			cmp := b
 			if op[0] == 'S' {
 				// what the server committed is the rendering with a final CRLF
@@ -421,7 +526,7 @@ func Run(r *hx.Run, replay []hx.Case) {
 		spec := mkSpec(s)
 		// fixed histories first: every single path twice, and a failed render followed by successful ones
 		fixed := [][]string{{"W", "W"}, {"W", "w", "R", "U", "F"}, {"W", "T", "S", "W"}, {"K50", "W", "W"}, {"K333", "W", "K700", "W"}, {"R", "U", "U"}, {"S", "W"}, {"W", "X", "W"}}
-		if s.name == "flaky-producer" {
+		if s.name == "flaky-producer" || s.name == "signed-flaky" {
 			fixed = append(fixed, []string{"W", "R", "P", "U", "P", "U", "W"}, []string{"P", "R", "P", "U", "W"}, []string{"W", "P", "W", "F", "T", "S", "P", "W", "R", "U"},
 				[]string{"R", "P", "U", "U", "P", "U", "U"})
 		}
@@ -438,6 +543,17 @@ func Run(r *hx.Run, replay []hx.Case) {
 			fixed = append(fixed, []string{"W", eS, "W", "R"}, []string{"W", eA, "F", "W"}, []string{"R", eT, "U", "W", "S"},
 				[]string{"K50", eS, eA, eT, "W", "w", "T"}, []string{"W", eT, "K333", eA, "W", "X"})
 		}
+		if s.signed {
+			// WriteToSkipMiddleware is not one of the property's render paths and does not sign (it writes the
+			// unsigned message): signed histories use the other paths
+			for i := range fixed {
+				for j := range fixed[i] {
+					if fixed[i][j] == "X" {
+						fixed[i][j] = "w"
+					}
+				}
+			}
+		}
 		for _, h := range fixed {
 			runCase(r, hx.Case{ID: r.NewID(), Kind: "history", Args: []string{fmt.Sprint(si), strings.Join(h, ","), spec}}, sh)
 		}
@@ -446,6 +562,12 @@ func Run(r *hx.Run, replay []hx.Case) {
 			h := make([]string, l)
 			for j := range h {
 				h[j] = alphabet[r.Rng.Intn(len(alphabet))]
+				if (s.name == "flaky-producer" || s.name == "signed-flaky") && r.Rng.Intn(4) == 0 {
+					h[j] = "P"
+				}
+				if s.signed && h[j] == "X" {
+					h[j] = "F"
+				}
 				if s.extra == nil && r.Rng.Intn(6) == 0 {
 					switch r.Rng.Intn(3) {
 					case 0:
